@@ -394,7 +394,14 @@ extern "C" int sim_os_close(int fd) {
     sim_point(SK_OS, 31);
     CurOp &c = t.cur;
     int slot = fd - w.plan->fd_base;
+    for (int i = 0; i < c.nclosed; i++)
+        if (c.closed[i] == fd) {
+            // the same call closes a descriptor number a second time: by now the number may belong to another caller
+            report(w, C19, "double-close", "descriptor " + std::to_string(fd - w.plan->fd_base) + " (relative) is closed twice by one library call; between the two closes another caller can be handed the same number");
+            break;
+        }
     if (slot < 0 || slot >= World::NFD || w.fd_owner[slot] < 0) { errno = EBADF; return -1; }   // not open
+    if (c.nclosed < 8) c.closed[c.nclosed++] = fd;
     w.fd_owner[slot] = -1;   // closes whatever is there -- also a descriptor that meanwhile belongs to another caller
     for (int i = 0; i < c.nfds; i++)
         if (c.fds[i] == fd) { c.fds[i] = c.fds[--c.nfds]; c.closes++; c.fds_open--; return 0; }
@@ -1025,7 +1032,7 @@ static void do_prng(World &w, TaskState &t, const Op &op, int index) {
     o.owner = &t; o.index = op.obj % NOBJ;
     CurOp &c = t.cur;
     c.gen = &o; c.dev_req = 0; c.os_req = 0; c.genbuf = nullptr; c.gensize = 0; c.os_active = false; c.os_terminal = -1; c.os_calls = 0;
-    c.opens = c.closes = 0; c.fds_open = 0; c.fd_next = 0; c.nfds = 0;
+    c.opens = c.closes = 0; c.fds_open = 0; c.fd_next = 0; c.nfds = 0; c.nclosed = 0;
     const int model_prop = o.system || (op.kind == P_INIT && (op.flags & (F_SYSTEM | F_NULLCB))) ? C18 : C15;
     const bool model_on = (w.armed == model_prop || w.armed == PR_NONE);
     switch (op.kind) {
@@ -1171,7 +1178,7 @@ extern "C" int tinyjambu_trng_generate(unsigned char *out);
 static void do_trng(World &w, TaskState &t, const Op &op, int index) {
     CurOp &c = t.cur;
     c.gen = nullptr; c.os_req = 0; c.os_active = false; c.os_terminal = -1; c.os_calls = 0; c.os_extra = 0; c.os_have_ok = false;
-    c.opens = c.closes = 0; c.fds_open = 0; c.fd_next = 0; c.nfds = 0;
+    c.opens = c.closes = 0; c.fds_open = 0; c.fd_next = 0; c.nfds = 0; c.nclosed = 0;
     Buf out(32, (size_t)(op.b & 7));
     memset(out.p, 0xA5, 32);
     int rc;
